@@ -345,6 +345,9 @@ open_dump(kdump_ctx_t *ctx)
 
 		ctx->shared->ops = NULL;
 		if (ctx->shared->cache) {
+			/* cache.hits and cache.misses live in the cache */
+			attr_embed_value(gattr(ctx, GKI_cache_hits));
+			attr_embed_value(gattr(ctx, GKI_cache_misses));
 			cache_free(ctx->shared->cache);
 			ctx->shared->cache = NULL;
 		}
